@@ -98,7 +98,7 @@ class Check:
     def violation(self, obligation, site, what, model=None, replay_files=None, confirmed=None):
         """a counterexample; matched against known findings by (obligation, site)"""
         for f in self.known_for(obligation):
-            if f.get('site') == site or f.get('site') == '*':
+            if f.get('site') == site or f.get('site') == '*' or (f.get('site', '').endswith('*') and site.startswith(f['site'][:-1])):
                 if site not in [k['site'] for k in self.known_seen if k['obligation'] == obligation]:
                     self.known_seen.append({'obligation': obligation, 'site': site, 'what': f.get('what', what)})
                 return 'known'
